@@ -52,6 +52,15 @@ def main():
   tasks = []
   with concurrent.futures.ProcessPoolExecutor(max_workers=16) as ex:
     bases = {p: (b, e) for p, b, e in ex.map(_base, props)}
+    broken = 0
+    for p, (b, e) in sorted(bases.items()):
+      for x in e:
+        broken += 1
+        print('BASELINE-ERROR %s %s' % (p, x[:300]))
+    if broken:
+      print('the unchanged tree does not analyse cleanly: results below would '
+            'hide the same error in the patched tree')
+      return 2
     for pf in patches:
       try:
         with open(pf, encoding='utf-8') as f:
